@@ -15,6 +15,8 @@ def run(tier):
         dl = 1500
     return vsrun.vs_check(
         PROP, tier, scs, deadline_s=dl, min_outcomes=2,
+        race_scenarios=[dict(scenario="c03h", p=2, m=2, bound=1, glib=1), dict(scenario="c03g", p=2, m=2, bound=1, glib=1)] if tier == "quick" else
+                      [dict(scenario="c03h", p=2, m=2, bound=2, glib=1), dict(scenario="c03g", p=2, m=2, bound=2, glib=1), dict(scenario="c03h", p=2, m=2, bound=1, glib=0), dict(scenario="c03g", p=3, m=1, bound=1, glib=0)],
         rule="every interleaving, up to the deviation bound, of P producers x m messages and the worker thread of an OwnThreadHandler<Pipeline> moved to its own thread; messages are "
              "built with heap-allocated file/function/category strings (or null pointers), pre-set formatted text and attributes, and the caller poisons and frees those buffers right "
              "after process() returns; the sink (with yield points) compares EVERY accessor (type, text, file, line, function, category, time, steady time, thread id, formatted text, "
